@@ -130,7 +130,7 @@ func markKinds(r *ev.Run, s *sto.Spec) {
 
 func main() {
 	ev.Main("C02", "exploration",
-		"per (backend, ingest path) session: seeded true blobs (sizes 0..64KiB+1, 1MiB in thorough; sha224/sha1/sha256; random/schema/text) each offered as itself and as 8 truncations, 4 extensions, 8 bit flips, 3 permutations, the same bytes under sha1/sha224/sha256 refs of other content, with failing sources, under refs of unknown hash names and under malformed names, before and after the true blob is stored, through 8 source-reader behaviours and 4 HTTP transports; plus 16MiB-1/16MiB/16MiB+1/16MiB+4KiB sessions on memory, localdisk, diskpacked; distinct = (backend, path, mutation, position, reader, transport, ref); every case is non-trivial (an oracle decision on outcome, fetch, stat, enumeration and hub notifications)",
+		"per (backend, ingest path) session: seeded true blobs (sizes 0..64KiB+1, 1MiB in thorough; sha224/sha1/sha256; random/schema/text) each offered as itself and as 8 truncations, 4 extensions, 8 bit flips, 3 permutations, the same bytes under sha1/sha224/sha256 refs of other content, with failing sources, under refs of unknown hash names and under malformed names, before and after the true blob is stored, through 8 source-reader behaviours and 4 HTTP transports; multipart requests naming one ref twice (true bytes and a corruption, both orders); plus 16MiB-1/16MiB/16MiB+1/16MiB+4KiB sessions on memory, localdisk, diskpacked, encrypt, and (receive, put; batch in thorough) behind every buffering or re-routing store (replica, namespace, proxycache, blobpacked, cond, shard, overlay) over localdisk/diskpacked children that do not re-hash; distinct = (backend, path, mutation, position, reader, transport, ref); every case is non-trivial (an oracle decision on outcome, fetch, stat, enumeration and hub notifications)",
 		run)
 }
 
@@ -139,6 +139,9 @@ type job struct {
 	spec *sto.Spec
 	path string
 	big  bool
+	// wrap: boundary session of a buffering / re-routing store over children that do not re-hash
+	wrap    bool
+	variant int
 }
 
 func run(r *ev.Run) {
@@ -178,6 +181,8 @@ func run(r *ev.Run) {
 	// the encrypting store adds bytes to what it stores below: both sides of the limit once more
 	n++
 	bigJobs = append(bigJobs, job{id: fmt.Sprintf("s%d", n), spec: sp("encrypt", nil, sp("localdisk", nil), mem()), path: "receive", big: true})
+	// the stores that buffer or re-route the stream, over children that store what they are given
+	bigJobs = append(bigJobs, wrappedBigJobs(r, &n)...)
 
 	bd := newBigData(r)
 	var wg sync.WaitGroup
@@ -225,6 +230,8 @@ func run(r *ev.Run) {
 	r.Require("path_mutation", "put/malformed-name", "batch/malformed-name")
 	r.Require("boundary", "16MiB-1/want-accept", "16MiB/want-accept", "16MiB+1/want-reject", "16MiB+4KiB/want-reject", "16MiB+1-valid-prefix/want-reject")
 	r.Require("boundary_outcomes", "16MiB-1/accepted", "16MiB/accepted", "16MiB+1/rejected", "16MiB+4KiB/rejected")
+	requireWrapped(r)
+	r.Require("batch_same_ref_orders", "valid-then-corrupt", "corrupt-then-valid", "valid-then-corrupt/ref-stored-before")
 	r.Require("outcomes", "accepted", "rejected")
 	r.Require("readers", "plain", "1byte", "half", "dataeof", "frag", "zero", "errk", "errk-eofwrap")
 	r.Require("transports", "put:rec-nocl", "put:rec-cl", "put:srv-cl", "put:srv-chunked", "batch:rec-nocl", "batch:srv-cl", "batch:srv-chunked")
@@ -244,7 +251,9 @@ func runJob(r *ev.Run, root string, j job, bd *bigData) {
 	markKinds(r, j.spec)
 	r.Note("backends", j.spec.String())
 	r.Count("sessions", 1)
-	if j.big {
+	if j.wrap {
+		s.wrapScript(bd, j.variant)
+	} else if j.big {
 		s.bigScript(bd)
 	} else {
 		s.script()
@@ -340,6 +349,10 @@ func (s *session) script() {
 	}
 	for _, of := range unknownHashOffers(rng)[2:] {
 		present(of)
+	}
+	// one ref naming two parts of a single request (true bytes and a corruption of them)
+	if s.path == "batch" && !s.dead {
+		s.sameRefBatches(seen)
 	}
 }
 
